@@ -10,7 +10,7 @@ import (
 )
 
 func init() {
-	Explanations["C07"] = "Decides structural necessary conditions of non-double-allocating wallet funding in wallet.SingleAddressWallet: (R1) the reservation map is read and written only at points where the wallet mutex is definitely held (lockset dataflow with call-site-derived entry states for unexported helpers); (R2) no error-capable return is reachable after the reservation call in any reserving function; (R3) every function that builds a pool-spent set from the v1 pool list also builds it from the v2 list and writes the same spent maps in both loops; (R4) when two loops take candidates from the same sorted candidate slice (largest-first, then defrag; or successive redistribute batches) every path between them re-slices the candidate variable past what was taken; (R5) every lock-holding loop over the stored unspent outputs applies all three filters (reserved, pool-spent, maturity) to the element; (R6) in every function that both selects (calls a helper consulting the reservation test) and reserves, no unlock of the wallet mutex lies on a path between the two; (R7) once output ids have been collected into the slice handed to the reservation call, no success return is reachable without passing that call. NOT decided: value conservation (inputs = amount + change + fee), acceptance of the funded transaction by the pool, reservation expiry timing, behaviour after restart."
+	Explanations["C07"] = "Decides structural necessary conditions of non-double-allocating wallet funding in wallet.SingleAddressWallet: (R1) the reservation map is read and written only at points where the wallet mutex is definitely held (lockset dataflow with call-site-derived entry states for unexported helpers); (R2) no error-capable return is reachable after the reservation call in any reserving function; (R3) every function that builds a pool-spent set from the v1 pool list also builds it from the v2 list and writes the same spent maps in both loops; (R4) when two loops take candidates from the same sorted candidate slice (largest-first, then defrag; or successive redistribute batches) every path between them re-slices the candidate variable past what was taken; (R5) every lock-holding loop over the stored unspent outputs applies all three filters (reserved, pool-spent, maturity) to the element; (R6) in every function that both selects (calls a helper consulting the reservation test) and reserves, no unlock of the wallet mutex lies on a path between the two; (R7) once output ids have been collected into the slice handed to the reservation call, no success return is reachable without passing that call; (R8) every lock-holding pool loop of a function that collects unconfirmed outputs into an element map deletes the ids spent by pooled inputs from that map. NOT decided: value conservation (inputs = amount + change + fee), acceptance of the funded transaction by the pool, reservation expiry timing, behaviour after restart."
 
 	register(&Rule{ID: "C07.R1", Prop: "C07", Floor: 5,
 		Doc: "one mutex: every access to the reservation map happens with the wallet mutex held",
@@ -24,6 +24,9 @@ func init() {
 	register(&Rule{ID: "C07.R4", Prop: "C07", Floor: 2,
 		Doc: "disjoint selection: candidates taken by one loop are sliced off before another loop takes from the same slice",
 		Run: c07r4})
+	register(&Rule{ID: "C07.R8", Prop: "C07", Floor: 6,
+		Doc: "unconfirmed candidates exclude outputs spent by later pooled transactions (every pool loop deletes spent ids from the element map)",
+		Run: c07r8})
 	register(&Rule{ID: "C07.R6", Prop: "C07", Floor: 3,
 		Doc: "selection and reservation happen in one critical section (no unlock between them)",
 		Run: c07r6})
@@ -774,5 +777,63 @@ func c07r7(c *Ctx) {
 				ob.OK("every non-error return after collecting ids passes the reservation")
 			}
 		}
+	}
+}
+
+// c07r8: wherever a lock-holding function collects unconfirmed outputs from the pool into an element map, every
+// pool loop that sees an input removes the spent id from that map (an unconfirmed output spent by a later pooled
+// transaction is not a candidate).
+func c07r8(c *Ctx) {
+	mu := walletMuField(c.P)
+	poolV1 := c.P.Method("wallet", "ChainManager", "PoolTransactions")
+	poolV2 := c.P.Method("wallet", "ChainManager", "V2PoolTransactions")
+	methods := walletMethods(c)
+	ls := NewLockset(c.P, mu, methods)
+	n := 0
+	for _, f := range methods {
+		g := f.Graph()
+		var loops []*ast.RangeStmt
+		ir.Walk(f.Body, false, func(x ast.Node) {
+			if rs, ok := x.(*ast.RangeStmt); ok {
+				if call, ok := ast.Unparen(rs.X).(*ast.CallExpr); ok && (f.Callee(call) == poolV1.Origin() || f.Callee(call) == poolV2.Origin()) {
+					if head := g.NodeOf(rs); head != nil && ls.At(f, head) == lsHeld {
+						loops = append(loops, rs)
+					}
+				}
+			}
+		})
+		if len(loops) == 0 {
+			continue
+		}
+		// element maps filled inside the pool loops
+		elemMaps := map[types.Object]bool{}
+		for _, rs := range loops {
+			for _, w := range f.WritesIn(rs.Body, false) {
+				if ix, ok := ast.Unparen(w.LHS).(*ast.IndexExpr); ok {
+					if mo := f.ObjOf(ix.X); mo != nil {
+						if mt, ok := mo.Type().Underlying().(*types.Map); ok && ir.IsNamed(mt.Elem(), ir.PkgPath("types"), "SiacoinElement") {
+							elemMaps[mo] = true
+						}
+					}
+				}
+			}
+		}
+		for mo := range elemMaps {
+			for _, rs := range loops {
+				n++
+				c.VisitGraph(f)
+				ob := c.Ob(f, "pool-spent-removed-from-unconfirmed:"+mo.Name(), rs.Pos())
+				has := false
+				for _, call := range f.CallsIn(rs.Body, false) {
+					if id, ok := call.Expr.Fun.(*ast.Ident); ok && id.Name == "delete" && len(call.Expr.Args) == 2 && f.ObjOf(call.Expr.Args[0]) == mo {
+						has = true
+					}
+				}
+				ob.Check(has, nil, "the pool loop at %s adds unconfirmed outputs to %q (or a sibling loop does) but does not remove ids spent by pooled inputs from it: an unconfirmed output already spent by a later pooled transaction is offered for selection, and a request above the real balance succeeds", c.P.Pos(rs.Pos()), mo.Name())
+			}
+		}
+	}
+	if n == 0 {
+		ir.Fail("no lock-holding pool loop collecting unconfirmed outputs found")
 	}
 }
